@@ -31,7 +31,7 @@ fn p(marker: &str) -> Stmt {
 // C11 templates
 
 const KINDS: usize = 5; // Block, If, IfElse, IfElifElse, While
-pub const TEMPLATE_SPACE: u64 = 4 * 155 * 27 * 4 * 4 * 2 * 2;
+pub const TEMPLATE_SPACE: u64 = 4 * 155 * 27 * 4 * 4 * 2 * 2 * 2;
 
 /// decode a template index into a program
 pub fn template(mut i: u64) -> Vec<Stmt> {
@@ -47,6 +47,9 @@ pub fn template(mut i: u64) -> Vec<Stmt> {
     let ending = take(4); // expr, decl, nested block, nothing
     let exit_first = take(2) == 0;
     let child_in_value_position = take(2) == 0;
+    // the nested construct is the LAST statement of the body that encloses it (its value is that body's value, and
+    // whatever follows the enclosing construct comes directly after it), or sits between two markers
+    let child_last = take(2) == 1;
     // chain -> depth and kinds
     let (depth, mut code) = if chain < 5 {
         (1, chain)
@@ -143,9 +146,11 @@ pub fn template(mut i: u64) -> Vec<Stmt> {
         } else {
             outer.extend(construct);
         }
-        outer.push(p(&format!("na {}", lvl)));
-        if lvl > 0 {
-            outer.push(Stmt::Expr(Expr::Int(10 + lvl as i64)));
+        if !(child_last && lvl > 0) {
+            outer.push(p(&format!("na {}", lvl)));
+            if lvl > 0 {
+                outer.push(Stmt::Expr(Expr::Int(10 + lvl as i64)));
+            }
         }
         inner = outer;
     }
@@ -612,7 +617,7 @@ impl Check for Flow {
             }
         }
         let rule = match self.which {
-            Which::C11 => "templates: nests of depth 1-3 over {block, als, als/anders, als/anders als/anders, zolang} in four wrappers (statement / value position, top level / function body), every choice of branch taken, one early exit (none, stop, volgende, antwoord) at the start or the end of the innermost body, four body endings (expression, declaration, nested block, nothing), a print marker at every point, checked against the reference model (strided in the quick tier, complete in the thorough tier); residue: 16 loop bodies x {top level, function} run for 0, 1, 2, 3, 1000 and 70000 iterations, the code after the loop (declares locals, calls functions) must give the same result every time, and the traced operand-stack height at every loop head must not change between iterations; control-profile random programs against the reference. distinct = distinct program texts",
+            Which::C11 => "templates: nests of depth 1-3 over {block, als, als/anders, als/anders als/anders, zolang} in four wrappers (statement / value position, top level / function body), every choice of branch taken, one early exit (none, stop, volgende, antwoord) at the start or the end of the innermost body, the nested construct either between two markers or as the last statement of the enclosing body, four body endings (expression, declaration, nested block, nothing), a print marker at every point, checked against the reference model (strided in the quick tier, complete in the thorough tier); residue: 16 loop bodies x {top level, function} run for 0, 1, 2, 3, 1000 and 70000 iterations, the code after the loop (declares locals, calls functions) must give the same result every time, and the traced operand-stack height at every loop head must not change between iterations; control-profile random programs against the reference. distinct = distinct program texts",
             Which::C12 => "directed call shapes (argument order, calls as non-first operands / array elements / arguments, direct, mutual and deep recursion, functions in variables and arrays, passed and returned) and calls-profile random programs against the reference model; frame discipline from the instruction trace: the callee's base pointer is exactly at its first argument, and after the return the caller's frame count, base pointer and stack height (minus arguments and callee, plus result) are restored; limit cases (recursion up to and past the 16-bit stack, 255/256/300 arguments, 300 and 70 000 locals, code beyond 64 KiB) with the weaker oracle 'the exact value or an error'. distinct = distinct program texts",
         };
         Summary {
